@@ -28,6 +28,8 @@ def planner_streams(tier, graphs_nodes=None, stress=False, n_quick=4000, n_thoro
     else:
         for k in range(4):
             out.append(("random-%d" % k, "planner", ["-seed", s * 1000 + k, "-n", n_thorough // 4, "-maxt", 8 + 3 * k]))
+    # several injectors over shared library sets and provider objects (state must not leak between them)
+    out.append(("multi", "multi", ["-seed", s + 5, "-n", 1500 if tier == "quick" else 20000, "-maxt", 10]))
     if graphs_nodes:
         out.append(("all-digraphs", "graphs", ["-seed", s, "-nodes", graphs_nodes[0] if tier == "quick" else graphs_nodes[1]]))
     if stress:
@@ -225,12 +227,14 @@ def _has(kinds):
 P_DEFAULT = [("d", {})]
 P_CLEAN = [("c", {"p_cleanup": 0.7, "p_err": 0.55, "p_func": 0.7, "min_structs": 4, "max_structs": 9, "units": [1, 2]})]
 
-e2e_prop("C03", P_CLEAN + P_DEFAULT, _pairs_c03, {"C03"},
+P_NAMES = [("n", {"adversarial": True, "p_err": 0.55, "p_cleanup": 0.6, "p_func": 0.65, "units": [1, 2]})]
+
+e2e_prop("C03", P_CLEAN + P_DEFAULT + P_NAMES, _pairs_c03, {"C03"},
          lambda ur: any(p for p, a, b in ur.run_pairs),
          "generated programs (1-3 injectors, 3-9 struct types, providers with every mix of cleanup/error results, struct/"
          "value/field steps interleaved) run under every single-failure plan, alternating with success runs; "
          "non-trivial = injector executed under at least one failing plan")
-e2e_prop("C04", P_CLEAN + P_DEFAULT, _pairs_c04, {"C04"},
+e2e_prop("C04", P_CLEAN + P_DEFAULT + P_NAMES, _pairs_c04, {"C04"},
          lambda ur: ur.u.inj["cleanup"] and (ur.impl or "").startswith("ok"),
          "same programs, success plans; non-trivial = accepted injector with a cleanup result")
 e2e_prop("C01", P_DEFAULT + P_CLEAN, _pairs_plan, {"C01"},
@@ -286,6 +290,8 @@ def _c14_extra(rep, units, info):
     for ur in units:
         # behaviour must not change under renaming: any oracle failure here is a capture or collision
         bad = [m for _, m in ur.run_bad + ur.emit_bad] + ["does not compile: " + m for m in ur.build_errors[:3]]
+        if (ur.impl or "").startswith("err") and not getattr(ur.u, "planted", None):
+            bad.append("a well-formed program is rejected once its packages/types/functions are renamed: " + (ur.impl or "")[:200])
         if bad:
             from . import e2e_eval as EV
             fails.append({"stream": "e2e-names", "request": ur.request, "impl": ur.impl, "why": bad[:4],
@@ -529,5 +535,33 @@ register("C01",
          [e2e_part("C01", P_DEFAULT + P_CLEAN + [("a", {"adversarial": True})], _pairs_plan, {"C01"},
                    lambda ur: (ur.impl or "").startswith("ok"), n_quick=150, n_thorough=1500),
           e2e_part("C01", [("u", {"plant": ["unexported"], "plant_p": 1.0, "units": [1, 2], "max_structs": 8})],
-                   lambda ur: [] if _planted(ur) else _pairs_plan(ur), set(), _planted,
+                   lambda ur: [] if _planted(ur) else _pairs_plan(ur), {"C01"}, _planted,
                    n_quick=120, n_thorough=800, build=True, runit=False, extra=_planted_oracle({"unexported": "unexported:"}))])
+
+
+def _wellformed_extra(rep, units, info):
+    """generated programs without a planted defect are well-formed by construction: they must be accepted,
+    wired as designated and behave accordingly"""
+    fails = []
+    for ur in units:
+        if getattr(ur.u, "planted", None) or (ur.impl or "") == "blocked":
+            continue
+        bad = [m for _, m in ur.run_bad] + ["does not compile: " + m for m in ur.build_errors[:3]]
+        if (ur.impl or "").startswith("err"):
+            bad.append("well-formed program rejected: " + (ur.impl or "")[:200] + " | " + " ".join(ur.wire_errors)[:300])
+        if bad:
+            from . import e2e_eval as EV
+            fails.append({"stream": "e2e-wellformed", "request": ur.request, "impl": ur.impl, "why": bad[:4],
+                          "program": ur.prog.name, "files": EV.G.materialise(ur.prog)})
+    return [], fails
+
+
+register("C10",
+         "unit tier: accepted random programs, each with 3 permutations of every argument list, its flattening into one "
+         "set and a split of the Build set into a nested set (bindings follow their concrete type): identical verdict "
+         "and call list required; plus the well-formedness oracle (a program satisfying the documented rules must be "
+         "accepted); e2e: well-formed generated programs whose sets are spread over packages, including two packages with the "
+         "same package name declaring same-named functions, must be accepted and wired as designated; non-trivial = accepted base program",
+         [_c10_part, planner_part("C10", _nt_accepted),
+          e2e_part("C10", [("n", {"adversarial": True, "units": [2, 3]}), ("d", {"units": [2, 3]})], _pairs_c02, set(),
+                   lambda ur: (ur.impl or "").startswith("ok"), n_quick=100, n_thorough=1000, extra=_wellformed_extra)])
